@@ -20,6 +20,8 @@ def run(cx):
     cx.rule("C18.R2", "K1", "all four channel closures deliver only under is_match, with the channel's own matchers")
     cx.rule("C18.R3", "E3", "handlers are stored under the channel id (replace on re-register); closing removes exactly that id from the four tables")
     cx.rule("C18.R4", "consts", "default options select everything: five times \"*\"")
+    cx.rule("C18.R5", "K1", "recipients are resolved when a message is dispatched, not when it is emitted: the spawned dispatch task captures the id-keyed handler table itself (behind its lock) and reads it there, so a close / unsubscribe / re-registration that has returned is seen by every later dispatch")
+    r5_dispatch_time(cx)
     m = cx.m
     pa = Prov(m, "alias")
     pv = Prov(m, "value")
@@ -205,3 +207,47 @@ def _conjunction(g, applied):
                 if g.blocks[sb2]["t"][0] != "switch" or last.b not in g.reach_from([bool_target(g, sb2, False)]):
                     return False
     return True
+
+
+
+KEYED_TABLE = re.compile(r"RwLock(::)?<std::collections::HashMap<std::string::String, std::sync::Arc<dyn ")
+
+
+def r5_dispatch_time(cx):
+    m = cx.m
+    pa = Prov(m, "alias")
+    n = 0
+    for f in m.fns.values():
+        if not f.q.startswith(EM + "emit_") or "::{" in f.q:
+            continue
+        # does this emit function touch an id-keyed handler table?
+        touches = [c for c in f.calls() if KEYED_TABLE.search(c.full or "")]
+        cors = [(bi, s) for bi, b in enumerate(f.blocks) for s in b["s"] if s[0] == "A" and s[2][0] == "coroutine"]
+        keyed = bool(touches)
+        for bi, s in cors:
+            g = m.fns.get(s[2][1])
+            if g is not None and any(KEYED_TABLE.search(c.full or "") for c in g.calls()):
+                keyed = True
+        if not keyed:
+            continue
+        n += 1
+        name = f.q.split("::")[-1]
+        # (a) the emit function itself does not read the table (no snapshot at emit time)
+        early = [c for c in f.calls() if re.search(r"RwLock::<.*>::(read|write|try_read)$", c.q) and KEYED_TABLE.search(c.full or "")]
+        # (b) a spawned coroutine captures the Arc<RwLock<HashMap<..>>> and reads it inside, and invokes the handlers from that guard
+        inside = False
+        for bi, s in cors:
+            g = m.fns.get(s[2][1])
+            if g is None:
+                continue
+            caps = [f.local_ty(o[1][0]) for o in s[2][2] if o[0] != "k"]
+            cap_lock = any(KEYED_TABLE.search(str(t)) for t in caps)
+            reads = [c for c in g.calls() if re.search(r"RwLock::<.*>::read$", c.q) and KEYED_TABLE.search(c.full or "") and (pa.root(g, c.args[0])[0] == "upvar" or pa.root(g, c.args[0])[:2] == ("param", 1))]
+            inside = inside or (cap_lock and bool(reads))
+        cx.ob("C18.R5", "dispatch-time:%s" % name, inside and not early,
+              "`%s` hands the handler table itself to the spawned dispatch task, which reads it under the lock when it runs%s" % (
+                  name, "" if (inside and not early) else " - but the table is read %s: a channel closed / replaced after the emit still gets (or its successor misses) the message" % (
+                      "when the message is emitted (line %s) and the copy is captured" % early[0].line if early else "nowhere inside the dispatch task")), f.loc())
+    if n == 0:
+        raise Anchor("no emit function over an id-keyed handler table found")
+    cx.floor("C18.R5", 4)
